@@ -438,6 +438,8 @@ def verify(contract, all_contracts=(), timeout_ms=10000, mutate=None, negate_pos
         res.error = 'out-of-reach: recursion'
     except z3.Z3Exception as ex:
         res.error = 'engine-error: z3: %s' % ex
+        if os.environ.get('PYVC_DEBUG'):
+            traceback.print_exc()
     except Exception as ex:
         res.error = 'engine-crash: %s: %s\n%s' % (type(ex).__name__, ex, traceback.format_exc()[-1500:])
     res.wall_s = time.time() - t0
